@@ -108,9 +108,13 @@ func (c *tupleCodec) createInjector(dest interface{}, wasNull bool) (inj injecto
 			}
 		case reflect.Interface:
 			if !wasNull {
-				target := make([]interface{}, len(c.elementCodecs))
-				*dest.(*interface{}) = target
-				inj, err = newSliceInjector(reflect.ValueOf(target))
+				target := reflect.ValueOf(make([]interface{}, len(c.elementCodecs)))
+				if !target.Type().AssignableTo(destValue.Type()) {
+					err = ErrDestinationTypeNotSupported
+				} else {
+					destValue.Set(target)
+					inj, err = newSliceInjector(target)
+				}
 			}
 		default:
 			err = ErrDestinationTypeNotSupported
